@@ -24,6 +24,12 @@ RECIPES = {
                          ("multi", [("train", 2), ("train", 1), ("train", 3),
                                     ("train", 1)]),
                          ("y", [("train", 2)])]),
+    # a bushy tree: several lists per depth, children below lists that are
+    # neither first nor last at their depth, shards next to children
+    "bushy": ("fb", 2, [("a/b", [("train", 2)]), ("c/d", [("train", 3)]),
+                        ("c", [("train", 1)]), ("e", [("train", 1),
+                                                      ("test", 1)]),
+                        ("a/b/f", [("train", 1)]), ("g/h", [("train", 1)])]),
     "cont": ("fb", 2, [("root", [("train", 3)]), ("root", [("train", 2),
                                                           ("test", 3)])]),
     "npz": ("npz", 2, [("root", [("train", 5), ("test", 1)])]),
